@@ -14,7 +14,9 @@ func (e *Engine) keyAtoms(st *State, i int) (addr *Term, pub *Term) {
 	if st.nameCnt[flag] == 0 {
 		st.nameCnt[flag] = 1
 		h := UF("keccak_64", BV(256), pub)
-		st.assume(Eq(Extract(159, 0, h), addr))
+		// built without the Extract rewrite rule (which would fold this very axiom to true)
+		raw := TS.intern(&Term{op: "extract", sort: BV(160), args: []*Term{h}, p1: 159, p2: 0})
+		st.assume(mk("=", BoolSort, addr, raw))
 		// the syntactic "distinct atoms" shortcut in Eq must be backed by an axiom the solver sees
 		for j := 0; j < st.nameCnt["keys"]; j++ {
 			if j != i {
@@ -126,6 +128,14 @@ func init() {
 		}
 		hb, sb := st.sliceBytes(h), st.sliceBytes(sg)
 		D, S := termOfBytes(hb), termOfBytes(sb)
+		// honest fast path: exactly a registered (digest, signature) pair, syntactically
+		for _, r := range st.sigs {
+			if r.sig == S && r.digest == D {
+				_, p := e.keyAtoms(st, r.key)
+				out := append([]*Term{ConstU(4, 8)}, bytesOfTerm(p)...)
+				return TupleV{st.newByteSlice(out), IfaceV{}}, true
+			}
+		}
 		badV := BVUge(sb[64], ConstU(4, 8))
 		// outsider result: fresh public key whose address differs from every harness key
 		fr := UF("ecrec_pub", BV(512), D, S) // functional: same (digest, signature) -> same result
